@@ -173,7 +173,7 @@ Definition first_change (bst : cst) (P : list cst) := find (changed bst) P.
 
 (** column of the base: layers either lack it (removed) or carry a value *)
 Section BaseColumn.
-  Variables (bpres : bool) (bv : bytes).
+  Variables (bpres : bool) (bv : bytes) (r0 : bool).
   Hypothesis Hbv : bpres = false -> bv = [].
   Let bst := if bpres then SVal bv else SAbsent.
   Let tr (lc : bool * bytes) := (false, negb (fst lc), snd lc).
@@ -183,7 +183,7 @@ Section BaseColumn.
     (conflictb bst P = false ->
        c_rem st = match first_change bst P with Some SNoCell => true | _ => false end /\
        c_mod st = match first_change bst P with Some (SVal x) => Some x | _ => None end /\
-       ((forall s, In s P -> s <> SNoCell) -> c_res st = render (spec_value bst P))).
+       (r0 = false -> c_res st = render (spec_value bst P))).
 
   Lemma render_bst : render bst = bv.
   Proof. subst bst. destruct bpres; [reflexivity|]. now rewrite Hbv. Qed.
@@ -243,20 +243,19 @@ Section BaseColumn.
           -- destruct f as [|x|].
              ++ rewrite Hrem. cbn [orb]. split; [assumption|]. split; [assumption|].
                 intros _. split; [assumption|]. split; [assumption|].
-                intros Hno. exfalso. apply find_some in Ef as [Hin _].
-                apply (Hno SNoCell); [apply in_or_app; now left|reflexivity].
+                intros Hr. unfold spec_value. rewrite find_snoc, Ef.
+                rewrite (Hres Hr). unfold spec_value. now rewrite Ef.
              ++ rewrite Hmod. cbn [is_some]. rewrite orb_true_r.
                 split; [assumption|]. split; [assumption|].
                 intros _. split; [assumption|]. split; [assumption|].
-                intros Hno. unfold spec_value. rewrite find_snoc, Ef.
-                rewrite Hres; [unfold spec_value; now rewrite Ef|].
-                intros s Hs. apply Hno. apply in_or_app; now left.
+                intros Hr. unfold spec_value. rewrite find_snoc, Ef.
+                rewrite (Hres Hr). unfold spec_value. now rewrite Ef.
              ++ exfalso. apply find_some in Ef as [Hin _].
                 unfold no_absent in Hna. rewrite Forall_forall in Hna. now apply (Hna _ Hin).
           -- rewrite Hrem, Hmod. cbn. split; [reflexivity|]. split; [assumption|].
              intros _. try rewrite (changed_val v), Ech. split; [reflexivity|]. split; [reflexivity|].
              intros _. unfold spec_value. rewrite find_snoc, Ef, (changed_val v), Ech.
-             rewrite render_bst. assumption.
+             rewrite render_bst. now subst v.
       + (* the layer removed the column *)
         rewrite changed_nocell. cbn [andb].
         assert (Ev : v = []) by (apply Hwf; reflexivity). subst v.
@@ -264,14 +263,13 @@ Section BaseColumn.
         * destruct f as [|x|].
           -- rewrite Hmod. cbn. split; [reflexivity|]. split; [assumption|].
              intros _. split; [reflexivity|]. split; [reflexivity|].
-             intros Hno. exfalso. apply find_some in Ef as [Hin _].
-             apply (Hno SNoCell); [apply in_or_app; now left|reflexivity].
+             intros _. unfold spec_value. rewrite find_snoc, Ef. reflexivity.
           -- rewrite Hmod. cbn. repeat split; try discriminate; assumption.
           -- exfalso. apply find_some in Ef as [Hin _].
              unfold no_absent in Hna. rewrite Forall_forall in Hna. now apply (Hna _ Hin).
         * rewrite Hmod. cbn. split; [reflexivity|]. split; [assumption|].
           intros _. try rewrite changed_nocell. split; [reflexivity|]. split; [reflexivity|].
-          intros Hno. exfalso. apply (Hno SNoCell); [apply in_or_app; right; now left|reflexivity].
+          intros _. unfold spec_value. rewrite find_snoc, Ef, changed_nocell. reflexivity.
   Qed.
 
   Lemma InvB_fold l P st :
@@ -289,15 +287,231 @@ Section BaseColumn.
   Qed.
 
   (** initial state: [r0] = some layer removed the row (then the base has it) *)
-  Lemma InvB_init (r0 : bool) :
+  Lemma InvB_init :
     (r0 = true -> bpres = true) ->
     InvB (if r0 then [SNoCell] else [])
          {| c_add := None; c_mod := None; c_rem := r0; c_res := bv; c_unres := false |}.
   Proof.
     intros Hr. unfold InvB, first_change; cbn [c_add c_unres c_rem c_mod c_res].
     destruct r0.
-    - cbn. rewrite changed_nocell. cbn. repeat split; try reflexivity.
-      intros Hno. exfalso. apply (Hno SNoCell); [now left|reflexivity].
+    - cbn. rewrite changed_nocell. cbn. repeat split; try reflexivity. intros H'; discriminate H'.
     - cbn. repeat split; try reflexivity. intros _. unfold spec_value; cbn. now rewrite render_bst.
   Qed.
 End BaseColumn.
+
+(** column that the base lacks: layers either add it or lack it too *)
+Section AddedColumn.
+  Variable bpres : bool.
+  Let tr (lc : bool * bytes) := (fst lc, false, snd lc).
+
+  Definition InvA (P : list cst) (st : cstate) : Prop :=
+    c_unres st = conflictb SNoCell P /\
+    (conflictb SNoCell P = false ->
+       c_add st = match first_change SNoCell P with Some (SVal x) => Some x | _ => None end /\
+       c_res st = render (spec_value SNoCell P) /\
+       (c_add st = None -> (c_mod st = None \/ c_mod st = Some []) /\ (c_rem st = true -> bpres = true))).
+
+  Lemma InvA_step P st lc :
+    no_absent P -> wf_lc lc -> InvA P st -> InvA (P ++ [st_of lc]) (kstep bpres [] st (tr lc)).
+  Proof.
+    intros Hna Hwf (Hun & Hst).
+    destruct lc as [has v]. unfold tr, st_of; cbn [fst snd].
+    unfold InvA. rewrite conflictb_snoc.
+    destruct (conflictb SNoCell P) eqn:Ec.
+    - cbn [orb]. unfold kstep.
+      destruct has.
+      + destruct (c_add st) as [a|]; [destruct (beqb a v)|]; repeat split; try discriminate; assumption.
+      + destruct (c_add st) as [a|]; [repeat split; try discriminate; assumption|].
+        destruct (negb bpres || negb (beqb [] v)).
+        * destruct (c_rem st); [repeat split; try discriminate; assumption|].
+          destruct (c_mod st) as [m|]; [destruct (beqb m v)|]; repeat split; try discriminate; assumption.
+        * destruct (c_rem st || is_some (c_mod st)); repeat split; try discriminate; assumption.
+    - specialize (Hst eq_refl) as (Hadd & Hres & Hmisc).
+      cbn [orb]. rewrite (clash_false_first _ _ _ Ec).
+      unfold first_change in *. unfold spec_value in *. rewrite find_snoc.
+      assert (Hfind : forall f, find (changed SNoCell) P = Some f -> exists x, f = SVal x).
+      { intros f Ef. apply find_some in Ef as [Hin Hc]. destruct f as [|x|].
+        - discriminate Hc. - now exists x.
+        - exfalso. unfold no_absent in Hna. rewrite Forall_forall in Hna. now apply (Hna _ Hin). }
+      unfold kstep.
+      destruct has.
+      + (* an adding layer *)
+        change (changed SNoCell (SVal v)) with true. cbn [andb].
+        destruct (find (changed SNoCell) P) as [f|] eqn:Ef.
+        * destruct (Hfind f eq_refl) as [x ->]. rewrite Hadd. cbn [cst_eqb].
+          destruct (beqb x v) eqn:Exv; cbn [negb].
+          -- apply beqb_eq in Exv; subst x. split; [assumption|]. intros _.
+             split; [reflexivity|]. split; [reflexivity|]. intros H; discriminate H.
+          -- split; [reflexivity|]. intros H; discriminate H.
+        * rewrite Hadd. cbn. split; [assumption|]. intros _.
+          split; [reflexivity|]. split; [reflexivity|]. intros H; discriminate H.
+      + (* a layer without the column *)
+        change (changed SNoCell SNoCell) with false. cbn [andb].
+        assert (Ev : v = []) by (apply Hwf; reflexivity). subst v.
+        destruct (find (changed SNoCell) P) as [f|] eqn:Ef.
+        * destruct (Hfind f eq_refl) as [x ->]. rewrite Hadd.
+          split; [assumption|]. intros _. split; [assumption|]. split; [assumption|]. assumption.
+        * rewrite Hadd. rewrite Hadd in Hmisc. destruct (Hmisc eq_refl) as [Hm Hr].
+          cbn [beqb bcmp negb orb]. rewrite orb_false_r.
+          destruct bpres eqn:Ebp; cbn [negb].
+          -- destruct (c_rem st || is_some (c_mod st)) eqn:E.
+             ++ split; [assumption|]. intros _. split; [assumption|]. split; [assumption|]. intros _. now split.
+             ++ cbn. split; [assumption|]. intros _. split; [reflexivity|]. split; [reflexivity|].
+                intros _. split; [now left|]. reflexivity.
+          -- assert (Er : c_rem st = false).
+             { destruct (c_rem st); [|reflexivity]. specialize (Hr eq_refl). discriminate Hr. }
+             rewrite Er.
+             destruct Hm as [Hm|Hm]; rewrite Hm.
+             ++ cbn. split; [assumption|]. intros _. split; [reflexivity|]. split; [reflexivity|].
+                intros _. split; [now right|]. intros H; discriminate H.
+             ++ cbn. split; [assumption|]. intros _. split; [reflexivity|]. split; [reflexivity|].
+                intros _. split; [now right|]. intros H; discriminate H.
+  Qed.
+
+  Lemma InvA_fold l P st :
+    no_absent P -> Forall wf_lc l -> InvA P st ->
+    InvA (P ++ map st_of l) (fold_left (kstep bpres []) (map tr l) st).
+  Proof.
+    revert P st. induction l as [|lc l IH]; intros P st Hna Hwf HI; cbn [map fold_left].
+    - now rewrite app_nil_r.
+    - inversion Hwf as [|? ? Hw Hwl]; subst.
+      replace (P ++ st_of lc :: map st_of l) with ((P ++ [st_of lc]) ++ map st_of l)
+        by (now rewrite <- app_assoc).
+      apply IH; [|assumption|now apply InvA_step].
+      apply Forall_app; split; [assumption|]. constructor; [|constructor].
+      destruct lc as [[|] ?]; cbn; discriminate.
+  Qed.
+
+  Lemma InvA_init (r0 : bool) :
+    (r0 = true -> bpres = true) ->
+    InvA [] {| c_add := None; c_mod := None; c_rem := r0; c_res := []; c_unres := false |}.
+  Proof.
+    intros Hr. unfold InvA, first_change, spec_value; cbn. repeat split; try reflexivity; auto.
+  Qed.
+End AddedColumn.
+
+(** ---- [conflictb] / [spec_value] only depend on the set of changes ---- *)
+Lemma conflictb_true_iff bst P :
+  conflictb bst P = true <->
+  exists s1 s2, In s1 P /\ In s2 P /\ changed bst s1 = true /\ changed bst s2 = true /\ s1 <> s2.
+Proof.
+  unfold conflictb. split.
+  - intros H. apply existsb_exists in H as (s1 & H1 & H). apply existsb_exists in H as (s2 & H2 & H).
+    apply andb_true_iff in H as [H Hn]. apply andb_true_iff in H as [Hc1 Hc2].
+    exists s1, s2. repeat split; try assumption. apply negb_true_iff in Hn. now apply cst_eqb_neq.
+  - intros (s1 & s2 & H1 & H2 & Hc1 & Hc2 & Hn).
+    apply existsb_exists. exists s1. split; [assumption|]. apply existsb_exists. exists s2. split; [assumption|].
+    rewrite Hc1, Hc2. cbn. apply negb_true_iff. now apply cst_eqb_neq.
+Qed.
+
+Definition same_changes (bst : cst) (P Q : list cst) : Prop :=
+  forall s, changed bst s = true -> (In s P <-> In s Q).
+
+Lemma conflictb_same bst P Q : same_changes bst P Q -> conflictb bst P = conflictb bst Q.
+Proof.
+  intros H. destruct (conflictb bst P) eqn:EP, (conflictb bst Q) eqn:EQ; try reflexivity.
+  - apply conflictb_true_iff in EP as (s1 & s2 & H1 & H2 & Hc1 & Hc2 & Hn).
+    assert (conflictb bst Q = true); [|congruence].
+    apply conflictb_true_iff. exists s1, s2. repeat split; try assumption; now apply H.
+  - apply conflictb_true_iff in EQ as (s1 & s2 & H1 & H2 & Hc1 & Hc2 & Hn).
+    assert (conflictb bst P = true); [|congruence].
+    apply conflictb_true_iff. exists s1, s2. repeat split; try assumption; now apply H.
+Qed.
+
+Lemma find_none_iff {A} (f : A -> bool) l : find f l = None <-> forall x, In x l -> f x = false.
+Proof.
+  split; [apply find_none|]. induction l as [|x l IH]; intros H; cbn; [reflexivity|].
+  rewrite (H x (or_introl eq_refl)). apply IH. intros y Hy. apply H. now right.
+Qed.
+
+Lemma spec_value_same bst P Q :
+  same_changes bst P Q -> conflictb bst P = false -> spec_value bst P = spec_value bst Q.
+Proof.
+  intros H HP. assert (HQ : conflictb bst Q = false) by (now rewrite <- (conflictb_same _ _ _ H)).
+  unfold spec_value. destruct (find (changed bst) P) as [s|] eqn:Ef.
+  - apply find_some in Ef as [Hin Hc].
+    rewrite (no_conflict_all_first _ _ HQ s); [reflexivity| |assumption]. now apply H.
+  - assert (E : find (changed bst) Q = None); [|now rewrite E].
+    apply find_none_iff. intros x Hx. destruct (changed bst x) eqn:Ec; [|reflexivity].
+    rewrite find_none_iff in Ef. rewrite <- Ec. apply Ef. now apply H.
+Qed.
+
+(** ---- the layers seen by tryResolve ---- *)
+Lemma none_positions_spec l k others :
+  In l (none_positions k others) <-> k <= l /\ nth_error others (l - k) = Some None.
+Proof.
+  revert k. induction others as [|o others IH]; intros k; cbn [none_positions].
+  - split; [intros []|]. intros [_ H]. destruct (l - k); discriminate.
+  - destruct o as [r|].
+    + rewrite IH. split.
+      * intros [Hk H]. split; [lia|]. replace (l - k) with (S (l - S k)) by lia. exact H.
+      * intros [Hk H]. destruct (l - k) as [|d] eqn:E; [discriminate|]. cbn in H.
+        split; [lia|]. replace (l - S k) with d by lia. exact H.
+    + cbn [In]. rewrite IH. split.
+      * intros [->|[Hk H]]; [split; [lia|]; now rewrite Nat.sub_diag|].
+        split; [lia|]. replace (l - k) with (S (l - S k)) by lia. exact H.
+      * intros [Hk H]. destruct (l - k) as [|d] eqn:E; [left; lia|]. right. cbn in H.
+        split; [lia|]. replace (l - S k) with d by lia. exact H.
+Qed.
+
+Lemma uniq_layers_sound l r k others :
+  In (l, r) (uniq_layers k others) -> k <= l /\ nth_error others (l - k) = Some (Some r).
+Proof.
+  revert k. induction others as [|o others IH]; intros k; cbn [uniq_layers]; [intros []|].
+  assert (Hrec : In (l, r) (uniq_layers (S k) others) -> k <= l /\ nth_error (o :: others) (l - k) = Some (Some r)).
+  { intros H. apply IH in H as [Hk H]. split; [lia|]. replace (l - k) with (S (l - S k)) by lia. exact H. }
+  destruct o as [r0|]; [|exact Hrec].
+  destruct (existsb _ others); [exact Hrec|].
+  intros [E|H]; [|now apply Hrec]. injection E as <- <-. split; [lia|]. now rewrite Nat.sub_diag.
+Qed.
+
+Lemma uniq_layers_complete others : forall k d r,
+  nth_error others d = Some (Some r) ->
+  exists l r', In (l, r') (uniq_layers k others) /\ keqb r' r = true.
+Proof.
+  induction others as [|o others IH]; intros k d r H; [destruct d; discriminate|].
+  cbn [uniq_layers]. destruct d as [|d]; cbn in H.
+  - injection H as ->.
+    destruct (existsb (fun o => sum_eqb o (Some r)) others) eqn:E.
+    + apply existsb_exists in E as (o & Hin & Hs). destruct o as [r1|]; [|discriminate].
+      apply In_nth_error in Hin as [d Hd].
+      destruct (IH (S k) d r1 Hd) as (l & r' & Hl & Hk). exists l, r'. split; [assumption|].
+      cbn in Hs. apply keqb_eq in Hs. subst. assumption.
+    + exists k, r. split; [now left|apply keqb_refl].
+  - destruct (IH (S k) d r H) as (l & r' & Hl & Hk).
+    exists l, r'. split; [|assumption].
+    destruct o as [r0|]; [|assumption]. destruct (existsb _ others); [assumption|now right].
+Qed.
+
+Lemma states_in cd m i s :
+  In s (states cd m i) <->
+  (exists l r, nth_error (m_others m) l = Some (Some r) /\ s = layer_cell cd l r i) \/
+  (s = SNoCell /\ is_some (m_base m) = true /\ exists l, nth_error (m_others m) l = Some None).
+Proof.
+  unfold states. rewrite in_flat_map. split.
+  - intros ([l o] & Hin & Hs).
+    assert (Hn : nth_error (m_others m) l = Some o).
+    { apply In_nth_error in Hin as [n Hn].
+      pose proof (nth_error_Some (combine (seq 0 (length (m_others m))) (m_others m)) n) as Hlt.
+      rewrite Hn in Hlt. assert (Hlen : n < length (combine (seq 0 (length (m_others m))) (m_others m))) by (apply Hlt; discriminate).
+      rewrite combine_length, seq_length, Nat.min_id in Hlen.
+      rewrite (nth_error_nth' _ (0, None) ) in Hn by (rewrite combine_length, seq_length, Nat.min_id; exact Hlen).
+      rewrite combine_nth in Hn by (now rewrite seq_length).
+      rewrite seq_nth in Hn by exact Hlen. injection Hn as <- <-.
+      apply nth_error_nth'. exact Hlen. }
+    unfold layer_states in Hs; cbn [fst snd] in Hs. destruct o as [r|].
+    + destruct Hs as [<-|[]]. left. now exists l, r.
+    + destruct (is_some (m_base m)) eqn:Eb; [|destruct Hs]. destruct Hs as [<-|[]].
+      right. split; [reflexivity|]. split; [reflexivity|]. now exists l.
+  - assert (Hcomb : forall l o, nth_error (m_others m) l = Some o ->
+                     In (l, o) (combine (seq 0 (length (m_others m))) (m_others m))).
+    { intros l o Hn.
+      assert (Hlt : l < length (m_others m)) by (apply nth_error_Some; congruence).
+      replace (l, o) with (nth l (combine (seq 0 (length (m_others m))) (m_others m)) (0, None)).
+      - apply nth_In. now rewrite combine_length, seq_length, Nat.min_id.
+      - rewrite combine_nth by (now rewrite seq_length). rewrite seq_nth by exact Hlt.
+        f_equal. now apply nth_error_nth. }
+    intros [(l & r & Hn & ->)|(-> & Hb & l & Hn)].
+    + exists (l, Some r). split; [now apply Hcomb|]. now left.
+    + exists (l, None). split; [now apply Hcomb|]. unfold layer_states; cbn. rewrite Hb. now left.
+Qed.
